@@ -10,6 +10,9 @@ use std::sync::atomic::{AtomicBool, AtomicU64, Ordering};
 /// Logical clock: number of scheduler steps taken so far (read by the wire to timestamp I/O).
 pub static STEP: AtomicU64 = AtomicU64::new(0);
 
+/// Largest number of steps any one scheduler of this process has taken (margin to `max_steps`, printed at exit).
+pub static MAX_CASE_STEPS: AtomicU64 = AtomicU64::new(0);
+
 pub fn now() -> u64 {
     STEP.load(Ordering::SeqCst)
 }
@@ -82,6 +85,12 @@ pub struct Sched<'a> {
     pub h_polls: u64,
     /// (logical time, actor) of every step taken
     pub hist: Vec<(u64, Actor)>,
+}
+
+impl<'a> Drop for Sched<'a> {
+    fn drop(&mut self) {
+        MAX_CASE_STEPS.fetch_max(self.steps, Ordering::Relaxed);
+    }
 }
 
 impl<'a> Sched<'a> {
@@ -225,6 +234,25 @@ impl<'a> Sched<'a> {
             if !self.step() {
                 return true;
             }
+        }
+        false
+    }
+
+    /// Run until quiescent, treating the step bound as a harness limit rather than a verdict: whenever it is reached, it is
+    /// raised by another 200 000 steps provided `progress` (a monotone measure of transport I/O) moved since the last time.
+    /// Returns false only when a whole extension passed without progress, or after 200 extensions.
+    pub fn run_to_quiescence_while(&mut self, mut progress: impl FnMut() -> u64) -> bool {
+        let mut last = progress();
+        for _ in 0..200 {
+            if self.run_to_quiescence() {
+                return true;
+            }
+            let now = progress();
+            if now == last {
+                return false;
+            }
+            last = now;
+            self.max_steps += 200_000;
         }
         false
     }
